@@ -102,6 +102,43 @@ func (p *mailboxPair) CloseWithin(d time.Duration) (hung []string) {
 	return hung
 }
 
+// Refresh closes both ends and builds the next connection of the session the
+// way Server.Accept / Client.Dial do (RefreshServerConn / RefreshClientConn).
+// It reports false if the new pair is not up within d.
+func (p *mailboxPair) Refresh(d time.Duration) bool {
+	_ = p.C.Close()
+	_ = p.S.Close()
+	type res struct {
+		c *mailbox.ClientConn
+		s *mailbox.ServerConn
+	}
+	rc, rs := make(chan res, 1), make(chan res, 1)
+	ctx, cancel := context.WithCancel(context.Background())
+	go func() { c2, _ := mailbox.RefreshClientConn(ctx, p.C); rc <- res{c: c2} }()
+	go func() { s2, _ := mailbox.RefreshServerConn(p.S); rs <- res{s: s2} }()
+	var c2 *mailbox.ClientConn
+	var s2 *mailbox.ServerConn
+	to := time.After(d)
+	for got := 0; got < 2; {
+		select {
+		case x := <-rc:
+			c2, got = x.c, got+1
+		case x := <-rs:
+			s2, got = x.s, got+1
+		case <-to:
+			cancel()
+			return false
+		}
+	}
+	if c2 == nil || s2 == nil {
+		cancel()
+		return false
+	}
+	old := p.cancel
+	p.C, p.S, p.cancel = c2, s2, func() { cancel(); old() }
+	return true
+}
+
 // closeWithin calls the closers concurrently and reports the names of those
 // that did not return within d.
 func closeWithin(d time.Duration, names []string, closers ...func() error) (hung []string) {
